@@ -8,6 +8,7 @@ use pallas_codec::minicbor::{data::Type, Decoder};
 use pallas_crypto::hash::Hasher;
 use pallas_codec::{minicbor, utils::KeepRaw};
 use pallas_primitives::alonzo::{NativeScript, PlutusData};
+use pallas_primitives::{alonzo, babbage, byron, conway};
 use pallas_primitives::conway::DatumOption;
 use pallas_traverse::{Era, MultiEraBlock, MultiEraHeader, MultiEraTx, OriginalHash};
 
@@ -27,6 +28,29 @@ fn tx_ops(era: &str, tx: &[u8]) -> Vec<String> {
 fn header_variant(wrapper_tag: u64) -> (u8, Option<u8>) {
     match wrapper_tag { 0 => (0, Some(0)), 1 => (0, Some(1)), t => ((t - 1) as u8, None) }
 }
+
+/// every (tag, subtag) of `MultiEraHeader::decode` that selects the decoder fitting a header taken
+/// from a block with this wrapper tag; the first one is the natural one
+fn hdr_combos(wrapper_tag: u64) -> Vec<(u8, Option<u8>)> {
+    match wrapper_tag {
+        0 => vec![(0, Some(0))],
+        1 => vec![(0, Some(1)), (0, None), (0, Some(7)), (0, Some(255))],
+        2..=5 => { let n = (wrapper_tag - 1) as u8; let mut v = vec![(n, None)]; for t in 1..=4u8 { if t != n { v.push((t, None)); } } v.push((n, Some(0))); v }
+        t => { let n = (t - 1) as u8; let mut v = vec![(n, None)]; for t in [5u8, 6, 7, 255] { if t != n { v.push((t, None)); } } v }
+    }
+}
+fn hdr_op(c: (u8, Option<u8>), h: &[u8]) -> String {
+    format!("hdr {} {} {}", c.0, match c.1 { Some(s) => s.to_string(), None => "-".into() }, hex(h))
+}
+fn body_ok(era: &str, m: &[u8]) -> bool {
+    match era {
+        "alonzo" => minicbor::decode::<KeepRaw<alonzo::TransactionBody>>(m).is_ok(),
+        "babbage" => minicbor::decode::<KeepRaw<babbage::TransactionBody>>(m).is_ok(),
+        "conway" => minicbor::decode::<KeepRaw<conway::TransactionBody>>(m).is_ok(),
+        _ => false,
+    }
+}
+const SYS_KINDS: [(usize, &str); 5] = [(0, "to-indef"), (1, "to-def"), (2, "widen-head"), (4, "chunk-string"), (7, "head-8-bytes")];
 
 /// up to `tries` attempts to find a mutant accepted by `accept`
 fn mutants<F: Fn(&[u8]) -> bool>(rng: &mut Rng, bytes: &[u8], want: usize, tries: usize, accept: F) -> Vec<(Vec<u8>, Vec<&'static str>)> {
@@ -78,7 +102,23 @@ pub fn generate(g: &mut Gen) {
         for s in rb.byron_payloads.iter().take(lim) { txs.push(("byron", b[s.0..s.1].to_vec())); }
         for i in 0..rb.bodies.len().min(lim) { if let Some(t) = fx::standalone_tx(b, &rb, i, true) { txs.push((era, t)); } }
     }
-    for (t, h) in &headers { g.case(vec![format!("header {} {}", t, hex(h))]); }
+    for (t, h) in &headers {
+        g.case(vec![format!("header {} {}", t, hex(h))]);
+        // every entry point of MultiEraHeader::decode that takes this header
+        g.case(hdr_combos(*t).into_iter().map(|c| hdr_op(c, h)).collect::<Vec<_>>());
+    }
+    // stand-alone KeepRaw values: Byron txs and post-Byron bodies sliced out of the corpus (byte level)
+    let mut byron_txs: Vec<Vec<u8>> = vec![];
+    let mut bodies: Vec<(&'static str, Vec<u8>)> = vec![];
+    for (era, t) in &txs {
+        let Some(ch) = fx::children(t, 0) else { continue };
+        let Some(s0) = ch.first() else { continue };
+        if *era == "byron" { byron_txs.push(t[s0.0..s0.1].to_vec()); } else if s0.1 - s0.0 < 6000 { bodies.push((era, t[s0.0..s0.1].to_vec())); }
+    }
+    byron_txs.sort(); byron_txs.dedup();
+    if !g.thorough() { byron_txs.truncate(6); bodies.truncate(30); }
+    for t in &byron_txs { g.case(vec![format!("byrontx {}", hex(t))]); }
+    for (e, b) in &bodies { g.case(vec![format!("body {} {}", e, hex(b))]); }
     for (era, t) in &txs { g.case(tx_ops(era, t)); }
     // stand-alone datums / native scripts sliced out of the corpus transactions (byte level)
     let mut datums: Vec<Vec<u8>> = vec![];
@@ -99,9 +139,78 @@ pub fn generate(g: &mut Gen) {
     for d in &scripts { g.case(vec![format!("script {}", hex(d))]); }
     // structural mutants pallas still decodes
     let mut rng = g.rng.fork();
+    // (0) systematic: EVERY single-site def<->indef / head-width / chunking mutant of stand-alone headers
+    //     (all eras incl. epoch boundary), driven through every matching (tag, subtag) entry point
+    let per_tag = if g.thorough() { 8 } else { 2 };
+    let mut seen_tag = std::collections::BTreeMap::<u64, usize>::new();
+    let mut sys_headers: Vec<&(u64, Vec<u8>)> = vec![];
+    let mut uniq = std::collections::BTreeSet::<&Vec<u8>>::new();
+    for th in &headers {
+        if !uniq.insert(&th.1) { continue; }
+        let c = seen_tag.entry(th.0).or_insert(0);
+        if *c < per_tag || th.0 <= 1 && *c < per_tag + 2 { *c += 1; sys_headers.push(th); }
+    }
+    for (t, h) in sys_headers {
+        let combos = hdr_combos(*t);
+        let (vt, st) = combos[0];
+        for (kind, name) in SYS_KINDS {
+            for m in cst::single_site_mutants(h, kind, 100_000, &mut rng) {
+                if MultiEraHeader::decode(vt, st, &m).is_ok() {
+                    let mut ops = vec![format!("note {name}")];
+                    let n = if *t <= 1 { combos.len() } else { 2 };
+                    ops.extend(combos.iter().take(n).map(|c| hdr_op(*c, &m)));
+                    g.case(ops);
+                }
+            }
+        }
+    }
+    // (0b) stand-alone Byron txs (attributes map is the LAST item) and post-Byron bodies
+    for t in &byron_txs {
+        for (kind, name) in SYS_KINDS {
+            for m in cst::single_site_mutants(t, kind, if g.thorough() { 100_000 } else { 24 }, &mut rng) {
+                if minicbor::decode::<KeepRaw<byron::Tx>>(&m).is_ok() { g.case(vec![format!("note {name}"), format!("byrontx {}", hex(&m))]); }
+            }
+        }
+    }
+    for (e, b) in &bodies {
+        for (kind, name) in SYS_KINDS {
+            for m in cst::single_site_mutants(b, kind, if g.thorough() { 40 } else { 6 }, &mut rng) {
+                if body_ok(e, &m) { g.case(vec![format!("note {name}"), format!("body {} {}", e, hex(&m))]); }
+            }
+        }
+    }
+    // (0c) whole transactions and small blocks: evenly spread single sites incl. the last one
+    let tx_lim = if g.thorough() { 40 } else { 6 };
+    let mut n_tx = 0;
+    for (era, t) in &txs {
+        if t.len() > (if g.thorough() { 20_000 } else { 3_000 }) { continue; }
+        n_tx += 1;
+        if !g.thorough() && n_tx > 60 { break; }
+        let e = era_of(era).unwrap();
+        for (kind, name) in SYS_KINDS {
+            for m in cst::single_site_mutants(t, kind, tx_lim, &mut rng) {
+                if MultiEraTx::decode_for_era(e, &m).is_ok() {
+                    let mut ops = vec![format!("note {name}")];
+                    ops.extend(tx_ops(era, &m));
+                    g.case(ops);
+                }
+            }
+        }
+    }
+    let mut n_blk = 0;
+    for b in &blocks {
+        if b.len() > (if g.thorough() { 20_000 } else { 5_000 }) { continue; }
+        n_blk += 1;
+        if !g.thorough() && n_blk > 10 { break; }
+        for (kind, name) in SYS_KINDS {
+            for m in cst::single_site_mutants(b, kind, if g.thorough() { 60 } else { 12 }, &mut rng) {
+                if MultiEraBlock::decode(&m).is_ok() { g.case(vec![format!("note {name}"), format!("block {}", hex(&m))]); }
+            }
+        }
+    }
     // (a) systematic: every single-site mutant (first sites) of every stand-alone datum / script
     let site_lim = if g.thorough() { 64 } else { 8 };
-    for (kind, name) in [(0usize, "to-indef"), (1, "to-def"), (2, "widen-head"), (4, "chunk-string")] {
+    for (kind, name) in SYS_KINDS {
         for d in &datums {
             for m in cst::single_site_mutants(d, kind, site_lim, &mut rng) {
                 if minicbor::decode::<KeepRaw<PlutusData>>(&m).is_ok() { g.case(vec![format!("note {name}"), format!("datum {}", hex(&m))]); }
@@ -312,6 +421,53 @@ pub fn run_case(case: &Case, out: &mut Out) {
                         if want != h { out.viol("header-hash-not-over-wire-bytes", format!("wrapper tag {} hash() {} expected {}", t, hex(&h), hex(&want))); }
                         if raw != span { out.viol("header-raw-cbor", "cbor() differs from the wire bytes of the header".to_string()); }
                         out.cov(format!("header-tag-{}", t));
+                        out.nontrivial();
+                        out.ok(format!("hash={}", hex(&h)));
+                    }
+                    Some(None) => out.err("decode"),
+                    None => out.panic(),
+                }
+            }
+            "hdr" => {
+                let (Some(t), Some(sub), Some(b)) = (op.get(1).and_then(|s| s.parse::<u8>().ok()), op.get(2), op.get(3).and_then(|s| unhex(s))) else { out.reply("bad-op".into()); continue };
+                let st: Option<u8> = if sub == "-" { None } else { sub.parse().ok() };
+                let bb = b.clone();
+                let r = guard(move || MultiEraHeader::decode(t, st, &bb).ok().map(|h| (h.hash().to_vec(), h.cbor().to_vec())));
+                match r {
+                    Some(Some((h, raw))) => {
+                        let end = fx::item_end(&b, 0).unwrap_or(b.len());
+                        let span = &b[..end];
+                        let want = if t == 0 { let mut p = vec![0x82, if st == Some(0) { 0x00 } else { 0x01 }]; p.extend_from_slice(span); h256(&p) } else { h256(span) };
+                        if want != h { out.viol("header-hash-not-over-wire-bytes", format!("decode({t}, {st:?}) hash() {} expected {}", hex(&h), hex(&want))); }
+                        if raw != span { out.viol("header-raw-cbor", format!("decode({t}, {st:?}): cbor() has {} bytes, the header item on the wire {}", raw.len(), span.len())); }
+                        out.cov(format!("hdr-entry-{}-{}", t, sub));
+                        out.nontrivial();
+                        out.ok(format!("hash={}", hex(&h)));
+                    }
+                    Some(None) => out.err("decode"),
+                    None => out.panic(),
+                }
+            }
+            "byrontx" | "body" => {
+                let is_b = op[0] == "byrontx";
+                let era_s = if is_b { "byron".to_string() } else { op.get(1).cloned().unwrap_or_default() };
+                let Some(b) = op.get(if is_b { 1 } else { 2 }).and_then(|s| unhex(s)) else { out.reply("bad-op".into()); continue };
+                let bb = b.clone();
+                let es = era_s.clone();
+                let r = guard(move || match es.as_str() {
+                    "byron" => minicbor::decode::<KeepRaw<byron::Tx>>(&bb).ok().map(|d| (d.original_hash().to_vec(), d.raw_cbor().len())),
+                    "alonzo" => minicbor::decode::<KeepRaw<alonzo::TransactionBody>>(&bb).ok().map(|d| (d.original_hash().to_vec(), d.raw_cbor().len())),
+                    "babbage" => minicbor::decode::<KeepRaw<babbage::TransactionBody>>(&bb).ok().map(|d| (d.original_hash().to_vec(), d.raw_cbor().len())),
+                    "conway" => minicbor::decode::<KeepRaw<conway::TransactionBody>>(&bb).ok().map(|d| (d.original_hash().to_vec(), d.raw_cbor().len())),
+                    _ => None,
+                });
+                match r {
+                    Some(Some((h, rawlen))) => {
+                        let end = fx::item_end(&b, 0).unwrap_or(b.len());
+                        if h256(&b[..end]) != h || rawlen != end {
+                            out.viol(format!("{}-original-hash-not-over-wire-bytes", op[0]), format!("original_hash() {} over {} bytes; the item on the wire has {} bytes, blake2b256 {}", hex(&h), rawlen, end, hex(&h256(&b[..end]))));
+                        }
+                        out.cov(format!("standalone-{}-{}", op[0], era_s));
                         out.nontrivial();
                         out.ok(format!("hash={}", hex(&h)));
                     }
